@@ -516,8 +516,9 @@ pub fn show(e: &Expr) -> String {
             parts.extend(rest.iter().map(show));
             format!("{}({})", show_atom(f), parts.join(", "))
         }
-        Expr::Fail => "fail".into(),
-        Expr::Todo => "todo".into(),
+        // always as a block: a bare `fail` swallows what follows as its message
+        Expr::Fail => "{\nfail\n}".into(),
+        Expr::Todo => "{\ntodo\n}".into(),
         Expr::Trace(m, b) => format!("{{\ntrace @\"{}\"\n{}\n}}", m, show(b)),
         Expr::TraceIfFalse(a) => format!("{}?", show_atom(a)),
         Expr::AndBlock(xs) => format!("and {{\n{}\n}}", xs.iter().map(|x| format!("{},", show(x))).collect::<Vec<_>>().join("\n")),
